@@ -15,6 +15,8 @@ import (
 	"math/big"
 	"os"
 	"os/exec"
+	"runtime"
+	"strconv"
 	"strings"
 	"sync"
 	"time"
@@ -604,4 +606,71 @@ func Chunked(scs []kit.Scenario, out *kit.Out) error {
 		}
 	}
 	return nil
+}
+
+// ---------------------------------------------------------------------------
+// goroutine states (positive observation of "blocked", never a guess from elapsed time)
+// ---------------------------------------------------------------------------
+
+// GID is the id of the calling goroutine.
+func GID() uint64 {
+	var b [64]byte
+	n := runtime.Stack(b[:], false)
+	s := b[10:n] // "goroutine 123 [running]:"
+	i := 0
+	for i < len(s) && s[i] >= '0' && s[i] <= '9' {
+		i++
+	}
+	v, _ := strconv.ParseUint(string(s[:i]), 10, 64)
+	return v
+}
+
+// Goroutine is one entry of a goroutine dump.
+type Goroutine struct {
+	ID    uint64
+	State string // "chan send", "chan receive", "sync.Mutex.Lock", "runnable", ...
+	Stack string
+}
+
+var (
+	gdumpMu  sync.Mutex
+	gdumpBuf = make([]byte, 1<<18)
+)
+
+// Goroutines dumps all goroutines of the process.
+func Goroutines() []Goroutine {
+	gdumpMu.Lock()
+	defer gdumpMu.Unlock()
+	var buf []byte
+	for {
+		n := runtime.Stack(gdumpBuf, true)
+		if n < len(gdumpBuf) {
+			buf = gdumpBuf[:n]
+			break
+		}
+		gdumpBuf = make([]byte, 2*len(gdumpBuf))
+	}
+	var out []Goroutine
+	for _, blk := range bytes.Split(buf, []byte("\n\n")) {
+		if !bytes.HasPrefix(blk, []byte("goroutine ")) {
+			continue
+		}
+		a := bytes.IndexByte(blk, '[')
+		b := bytes.IndexByte(blk, ']')
+		if a < 0 || b < a {
+			continue
+		}
+		id, _ := strconv.ParseUint(string(bytes.TrimSpace(blk[10:a])), 10, 64)
+		st := string(blk[a+1 : b])
+		if i := strings.IndexByte(st, ','); i >= 0 { // "chan send, 2 minutes"
+			st = st[:i]
+		}
+		out = append(out, Goroutine{ID: id, State: st, Stack: string(blk[b+1:])})
+	}
+	return out
+}
+
+// LockWait: the state of a goroutine that waits for a sync.Mutex.
+func LockWait(state string) bool {
+	return strings.HasPrefix(state, "sync.Mutex.Lock") || strings.HasPrefix(state, "semacquire") || strings.HasPrefix(state, "sync.RWMutex")
 }
